@@ -232,6 +232,21 @@ def inject_faults(kind):
         for n, ex in (('PATTERN_ENCODERS', RuntimeError), ('EAGER_ENCODERS', MemoryError),
                       ('LAZY_ENCODERS', TimeoutError)):
             getattr(sm, n)[:] = [faulty(f, exc=ex) for f in saved[n]]
+    elif kind in ('all_but_lazy_raise', 'only_lazy_conn_idx'):
+        # what a tiny time limit does on a loaded machine: every encoder that enumerates matrices is out (and, in the
+        # second variant, every lazy encoder but the cheapest family)
+        for n, ex in (('PATTERN_ENCODERS', RuntimeError), ('EAGER_ENCODERS', TimeoutError),
+                      ('EAGER_ENUM_ENCODERS', MemoryError)):
+            getattr(sm, n)[:] = [faulty(f, exc=ex) for f in saved[n]]
+        if kind == 'only_lazy_conn_idx':
+            def keep_conn_idx(fac):
+                def make(imp):
+                    enc = fac(imp)
+                    if type(enc).__name__ == 'LazyConnIdxMatrixEncoder':
+                        return enc
+                    return faulty(fac, exc=TimeoutError)(imp)
+                return make
+            sm.LAZY_ENCODERS[:] = [keep_conn_idx(f) for f in saved['LAZY_ENCODERS']]
     elif kind == 'all_slow':
         for n in saved:
             getattr(sm, n)[:] = [faulty(f, delay=.05) for f in saved[n]]
@@ -292,7 +307,8 @@ def phase_a(task, col):
                 check_working(m3, cs, col, dict(timeout=to), 'limit_%s' % to)
         # injected candidate faults (cache bypassed)
         if (i % 3) == 0:
-            for kind in ('pattern_and_eager_raise', 'lazy_raise', 'all_but_enum_raise'):
+            for kind in ('pattern_and_eager_raise', 'lazy_raise', 'all_but_enum_raise', 'all_but_lazy_raise',
+                         'only_lazy_conn_idx'):
                 restore = inject_faults(kind)
                 try:
                     m4, _ = select(cs, col, dict(fault=kind), timeout=10, cache=False, label='fault_' + kind)
